@@ -260,3 +260,5 @@ PROPS['C11']['expect_probes'] = PROPS['C11']['expect_probes'] + ['pointer_argume
 PROPS['C03']['expect_probes'] = PROPS['C03']['expect_probes'] + ['F2_integer_operand_rewritten_between_accesses']
 PROPS['C19']['expect_probes'] = PROPS['C19']['expect_probes'] + ['timing_records_read_after_destroy']
 PROPS['C12']['expect_probes'] = PROPS['C12']['expect_probes'] + ['another_sandbox_created_and_destroyed_inside_a_callback']
+PROPS['C12']['expect_probes'] = PROPS['C12']['expect_probes'] + ['callback_returns_struct_with_integer_arrays']
+PROPS['C03']['expect_probes'] = PROPS['C03']['expect_probes'] + ['pointer_to_function_pointer_loaded_from_sandbox_memory']
